@@ -160,7 +160,9 @@ func (t *e2Trace) judge(wantC08, wantC12 bool) (out []e2Finding) {
 	var cur *e2RS
 	rounds := map[[3]uint64]*e2RS{}
 	var prevEnt *e2RS
-	timers := map[int]*e2Ev{} // armed timers by id (start event)
+	timers := map[int]*e2Ev{}         // armed timers by id (start event)
+	everStarted := map[string]bool{}  // instance/kind/height/round of every timer started
+	harnessFired := map[string]bool{} // ... whose latest timer the harness has fired
 	timerOf := func(inst int) []*e2Ev {
 		var l []*e2Ev
 		for _, e := range timers {
@@ -300,14 +302,21 @@ func (t *e2Trace) judge(wantC08, wantC12 bool) (out []e2Finding) {
 				t.judged["D1"]++
 			}
 			timers[e.ID] = e
+			everStarted[e2TimerKey(e)] = true
+			delete(harnessFired, e2TimerKey(e))
 		case e2kTimerCancel:
 			delete(timers, e.ID)
 		case e2kTimerFire:
 			delete(timers, e.ID)
+			harnessFired[e2TimerKey(e)] = true
 			if rs := rounds[[3]uint64{uint64(e.Inst), e.H, uint64(e.R)}]; rs != nil {
 				if _, ok := rs.fired[e.Sub]; !ok {
 					rs.fired[e.Sub] = e.Seq
 				}
+			}
+		case e2kQuitStep:
+			if wantC12 {
+				t.c12QuitStep(e, timerOf(e.Inst), everStarted, harnessFired, add)
 			}
 		case e2kStop:
 			for id, ts := range timers {
@@ -758,6 +767,53 @@ func (t *e2Trace) c12Armed(cur *e2RS, f e2VF, armed []*e2Ev, q *e2Ev, add func(u
 			add(q.Seq, "C12:"+ts.Sub+"-timer-armed-while-in-"+step,
 				"at rest in %d/%d, observable step %s, but a %s timer (#%d for %d/%d) is outstanding", cur.hr.H, cur.hr.R, step, ts.Sub, ts.ID, ts.H, ts.R)
 		}
+	}
+}
+
+func e2TimerKey(e *e2Ev) string { return fmt.Sprintf("%d/%s/%d/%d", e.Inst, e.Sub, e.H, e.R) }
+
+// c12QuitStep judges the one place where the state machine itself says which step it is
+// waiting in: the shutdown line of its main loop, written between two events. A timed step
+// needs its timer outstanding at the timer boundary, any other step needs none. A timer the
+// harness has fired is not judged (the machine may not have read the elapsed channel yet).
+func (t *e2Trace) c12QuitStep(e *e2Ev, armed []*e2Ev, everStarted, harnessFired map[string]bool, add func(uint64, string, string, ...any)) {
+	want, ok := map[string]string{
+		"AwaitingProposal": "proposal", "PrevoteDelay": "prevote-delay", "PrecommitDelay": "precommit-delay", "CommitWait": "commit-wait",
+		"AwaitingPrevotes": "none", "AwaitingPrecommits": "none", "AwaitingFinalization": "none",
+	}[e.Sub]
+	if !ok {
+		t.unjudged["D4.unknown-step-name"]++
+		return
+	}
+	key := fmt.Sprintf("%d/%s/%d/%d", e.Inst, want, e.H, e.R)
+	if want != "none" && harnessFired[key] {
+		t.unjudged["D4.timer-fired-not-yet-consumed"]++
+		return
+	}
+	t.judged["D4."+e.Sub]++
+	if want != "none" {
+		found := false
+		for _, ts := range armed {
+			if ts.Sub == want && ts.H == e.H && ts.R == e.R {
+				found = true
+			}
+		}
+		if !found {
+			how := "never started one for this round"
+			if everStarted[key] {
+				how = "cancelled the one it had started"
+			}
+			add(e.Seq, "C12:no-"+want+"-timer-armed-while-in-step-reported-at-shutdown:"+e.Sub,
+				"on shutdown the state machine reported that it was waiting in %d/%d in step %s, but no %s timer is outstanding (it %s; outstanding: %s)", e.H, e.R, e.Sub, want, how, e2TimerList(armed))
+		}
+		return
+	}
+	for _, ts := range armed {
+		if harnessFired[e2TimerKey(ts)] {
+			continue
+		}
+		add(e.Seq, "C12:"+ts.Sub+"-timer-armed-while-in-step-reported-at-shutdown:"+e.Sub,
+			"on shutdown the state machine reported that it was waiting in %d/%d in step %s, but a %s timer (#%d for %d/%d) is outstanding", e.H, e.R, e.Sub, ts.Sub, ts.ID, ts.H, ts.R)
 	}
 }
 
